@@ -350,3 +350,109 @@ def connection_propagation(ctx: Ctx, rule: str) -> None:
                       f"{fn.short()} creates {d}(...) without handing over its own connection (_connection={txt or '<default connection>'}): the new object works on the process-wide default "
                       "connection's brokers instead of the ones this object was bound to", node=c, instance=f"{fn.short()}: {d} connection")
     ctx.floor(rule, n, 4, "constructions of connection-bound objects inside connection-bound objects")
+
+
+PER_INSTANCE_CALLS = {"now", "utcnow", "today", "uuid1", "uuid4", "time", "time_ns", "monotonic", "perf_counter", "random", "randint", "token_hex", "token_bytes", "urandom",
+                      "getpid", "list", "dict", "set", "deque", "Queue", "Lock", "Event", "Semaphore", "defaultdict", "bytearray"}
+
+
+def fresh_defaults(ctx: Ctx, rule: str) -> None:
+    """A default that must differ from object to object (a new id, the current time, a fresh container) is produced per object: `field(default_factory=...)`
+    on dataclasses, computed in the body for functions. Written as an eager default (`id_: str = uuid4().hex`, `field(default=datetime.now())`,
+    `def f(ts=datetime.now())`) it is evaluated once, when the class / function is created - every object then shares one id, one timestamp, one container."""
+    def per_instance_calls(e):
+        return [c for c in ast.walk(e) if isinstance(c, ast.Call) and (dotted(c.func) or "").split(".")[-1] in PER_INSTANCE_CALLS
+                and not any(isinstance(l, ast.Lambda) and any(x is c for x in ast.walk(l)) for l in ast.walk(e))]
+
+    probe = ast.parse("class K:\n    id_: str = uuid4().hex\n").body[0].body[0].value
+    ctx.require(len(per_instance_calls(probe)) == 1, "eager-default detector does not recognise its positive example")
+    n = 0
+    for c in ctx.prog.classes.values():
+        if not any("dataclass" in unparse(d) for d in c.node.decorator_list):
+            continue
+        for st in c.node.body:
+            if not (isinstance(st, ast.AnnAssign) and st.value is not None) or "ClassVar" in unparse(st.annotation):
+                continue
+            n += 1
+            v = st.value
+            eager = v
+            if isinstance(v, ast.Call) and (dotted(v.func) or "").split(".")[-1] == "field":
+                eager = C.kw(v, "default")
+                if eager is None:
+                    continue  # default_factory (or no default): produced per object
+            bad = per_instance_calls(eager)
+            ctx.check(not bad, rule, c.qualname, f"{c.name}.{unparse(st.target)} default is produced per object", "constant, or field(default_factory=...)",
+                      f"{c.name}.{unparse(st.target)} has the eager default `{unparse(eager)[:60]}`: it is evaluated once when the class is created, so every {c.name} built without an explicit "
+                      f"value shares it (the same message id for every routing key, the import time as every timestamp, one container for all)", node=st,
+                      instance=f"{c.name}.{unparse(st.target)}: default per object")
+    ctx.floor(rule, n, 15, "dataclass fields with defaults")
+    m = 0
+    for fn in ctx.prog.iter_functions():
+        if isinstance(fn.node, ast.Lambda) or (fn.cls is not None and any("Protocol" in b for b in fn.cls.base_exprs)):
+            continue
+        for dv in list(fn.node.args.defaults) + [d for d in fn.node.args.kw_defaults if d is not None]:
+            m += 1
+            bad = per_instance_calls(dv)
+            if bad:
+                ctx.fail(rule, fn, f"parameter default {unparse(dv)[:50]}", f"{fn.short()} has the parameter default `{unparse(dv)[:60]}`, evaluated once at definition time: every call that omits "
+                         "the argument gets the same id / timestamp / container", node=dv, instance=f"{fn.short()}: eager parameter default")
+    ctx.floor(rule, m, 50, "parameter defaults scanned")
+
+
+def lazy_slot_writers(ctx: Ctx, rule: str) -> None:
+    """The lazy result slot (the store of the result set last) is written by __init__ (no-op), set_result and set_exception only. Any other writer -
+    e.g. an eager action 'clearing' it - makes the result that was set disappear from what the action publishes."""
+    cq = C.MSGDEP
+    writers = set()
+    for fn in ctx.prog.iter_functions():
+        if fn.cls is None or fn.cls.qualname != cq:
+            continue
+        top = fn
+        while top.parent is not None:
+            top = top.parent
+        for a in ast.walk(fn.node):
+            if isinstance(a, ast.Attribute) and isinstance(a.ctx, (ast.Store, ast.Del)) and "lazy" in a.attr and "callback" in a.attr:
+                writers.add(top.name)
+    # a private helper's write belongs to whoever calls the helper
+    methods = {fn.name: fn for fn in ctx.prog.iter_functions() if fn.cls is not None and fn.cls.qualname == cq and fn.parent is None}
+    for _ in range(3):
+        for w_ in [w for w in writers if w.startswith("_") and not (w.startswith("__") and w.endswith("__"))]:
+            callers = {m.name for m in methods.values() if any(isinstance(c, ast.Call) and isinstance(c.func, ast.Attribute) and c.func.attr == w_ for c in ast.walk(m.node)) and m.name != w_}
+            if callers:
+                writers.discard(w_)
+                writers |= callers
+    extra = sorted(writers - {"__init__", "set_result", "set_exception"})
+    ctx.check({"set_result", "set_exception"} <= writers and not extra, rule, cq, "lazy result slot written only by set_result / set_exception", f"writers {sorted(writers)}",
+              f"the lazy result slot of MessageDependency is also written by {extra or 'nobody'} (expected writers: __init__, set_result, set_exception): the result or exception that was set "
+              "is dropped (or never recorded) before the callbacks run, so the bucket does not hold what was set last", instance="lazy slot writers")
+
+
+CLOCK_LOCAL = {"now", "today", "fromtimestamp"}
+CLOCK_UTC = {"utcnow", "utcfromtimestamp"}
+
+
+def clock_family(ctx: Ctx, rule: str) -> None:
+    """Timestamps are produced and compared in one clock family: naive local time (datetime.now / fromtimestamp) everywhere, or UTC everywhere. One
+    utcnow() among local now()s shifts every expiry / timeout decision that involves it by the host's UTC offset."""
+    sites: dict[str, list] = {"local": [], "utc": []}
+    for fn in ctx.prog.iter_functions():
+        for c in ast.walk(fn.node):
+            if isinstance(c, ast.Call):
+                d = dotted(c.func) or ""
+                last = d.split(".")[-1]
+                if "datetime" in d or d in ("now", "utcnow"):
+                    if last in CLOCK_UTC:
+                        sites["utc"].append((fn, c))
+                    elif last in CLOCK_LOCAL:
+                        aware_utc = any("utc" in unparse(a).lower() for a in list(c.args) + [k.value for k in c.keywords])
+                        sites["utc" if aware_utc else "local"].append((fn, c))
+    ctx.floor(rule, len(sites["local"]) + len(sites["utc"]), 8, "clock readings / timestamp conversions")
+    minority = "utc" if len(sites["utc"]) <= len(sites["local"]) else "local"
+    if sites["utc"] and sites["local"]:
+        for fn, c in sites[minority]:
+            ctx.fail(rule, fn, f"{unparse(c)[:50]} among {len(sites['local' if minority == 'utc' else 'utc'])} readings of the other family",
+                     f"{fn.short()} reads / converts time with `{unparse(c)[:60]}` ({minority}) while the rest of the library uses the {'local naive' if minority == 'utc' else 'UTC'} clock: "
+                     "timestamps from one family compared with 'now' from the other are off by the host's UTC offset (live messages expire at once east of UTC, expired ones run west of it)",
+                     node=c, instance=f"{fn.short()}: clock family")
+    else:
+        ctx.ok(rule, "one clock family", f"{len(sites['local'])} local / {len(sites['utc'])} utc readings")
